@@ -69,6 +69,8 @@ def int2ba(interp, i, length=None, endian=None, signed=False):
         # top bit set iff negative
         c.assume(ubit(vt, nt, z3.IntVal(0)) == (sym._int_t(i) < 0))
     r.tag = ('uint', v, length)
+    # all-zeros / all-ones facts, instantiated at the skolem indices of view goals
+    c.__dict__.setdefault('ubit_terms', []).append((vt, nt, sym._int_t(p)))
     return r
 
 
